@@ -3,23 +3,29 @@
  *
  *   wr cols=<name.rep.ptype.tlen,...> codec=<n> page=<bytes> ns=<k> s0=<step> ... s<k-1>=<step>
  *      | st=<status of each call incl. close, comma list> file=x<bytes> nrg=<n> rows=<n>
- *        r<rg>_<col>=<ret>;<defs>;<v0:v1:...>   (fread mode, one read_batch of the whole chunk)
+ *        r<rg>_<col>=<ret>;<defs>;<v0:v1:...>[;<reps>]   (fread mode, one read_batch of the whole chunk; a REPEATED
+ *                                                column is read with a rep_levels array and has the fourth field)
  *        p_roundtrip=0/1 (C side: what was read equals what was written)  p_modes=0/1 (mmap and
  *        buffer mode return the same as fread mode)  p_same_twice=0/1 (second write is byte-identical)
  *   step := b.<col>.<defs>.<v0:v1:...>   one write_batch: defs = string of 0/1 per row, or N for a NULL
  *                                        def_levels pointer with <count> rows encoded as N<count>;
  *                                        values are the NON-NULL values, raw little-endian bytes in hex
+ *           b.<col>.<defs>.<vals>.R<reps>      the same with a rep_levels array (string of 0/1 per entry, E if empty);
+ *                                        without the field rep_levels is NULL.  For a REPEATED column <defs> / <reps>
+ *                                        have one character per ENTRY (0 = empty list / 1 = element; 0 = first entry
+ *                                        of a row / 1 = further element of the same list)
  *         | rg                           carquet_writer_new_row_group
  * Values are bit patterns throughout (floats never interpreted). */
 #include "filecase.h"
 #include <sys/stat.h>
 
 /* expected table per row group / column, derived from the history */
-typedef struct { int nrows; uint8_t* defs; int nvals; uint8_t** vals; int* vlen; int cap; int vcap; } echunk;
+typedef struct { int nrows; uint8_t* defs; uint8_t* reps; int nvals; uint8_t** vals; int* vlen; int cap; int vcap; } echunk;
 
 static void ech_add(echunk* e, const fstep* s) {
-    if (e->nrows + s->nrows > e->cap) { e->cap = (e->nrows + s->nrows) * 2 + 8; e->defs = (uint8_t*)realloc(e->defs, (size_t)e->cap); }
+    if (e->nrows + s->nrows > e->cap) { e->cap = (e->nrows + s->nrows) * 2 + 8; e->defs = (uint8_t*)realloc(e->defs, (size_t)e->cap); e->reps = (uint8_t*)realloc(e->reps, (size_t)e->cap); }
     for (int r = 0; r < s->nrows; r++) e->defs[e->nrows + r] = s->has_defs ? s->defs[r] : 1;
+    for (int r = 0; r < s->nrows; r++) e->reps[e->nrows + r] = s->has_reps ? s->reps[r] : 0;    /* NULL rep_levels: every entry starts a row */
     e->nrows += s->nrows;
     if (e->nvals + s->nvals > e->vcap) { e->vcap = (e->nvals + s->nvals) * 2 + 8; e->vals = (uint8_t**)realloc(e->vals, (size_t)e->vcap * sizeof(uint8_t*)); e->vlen = (int*)realloc(e->vlen, (size_t)e->vcap * sizeof(int)); }
     for (int j = 0; j < s->nvals; j++) { e->vals[e->nvals + j] = s->vals[j]; e->vlen[e->nvals + j] = s->vlen[j]; }
@@ -39,11 +45,12 @@ static char* read_chunk(carquet_reader_t* rd, const fcol* c, int rg, int col) {
     uint8_t* vals = h_alloc((size_t)(n ? n : 1) * (size_t)vs);
     memset(vals, 0xEE, (size_t)(n ? n : 1) * (size_t)vs);
     int16_t* defs = (int16_t*)h_alloc((size_t)(n ? n : 1) * 2);
-    for (int64_t i = 0; i < n; i++) defs[i] = -7;
-    int64_t got = carquet_column_read_batch(cr, vals, n, c->rep == 1 ? defs : NULL, NULL);
+    int16_t* reps = (int16_t*)h_alloc((size_t)(n ? n : 1) * 2);
+    for (int64_t i = 0; i < n; i++) { defs[i] = -7; reps[i] = -7; }
+    int64_t got = carquet_column_read_batch(cr, vals, n, c->rep != 0 ? defs : NULL, c->rep == 2 ? reps : NULL);
     APP("%lld;", (long long)got);
     int64_t nn = 0;
-    if (got > 0 && c->rep == 1) { for (int64_t i = 0; i < got; i++) { APP("%c", defs[i] == 1 ? '1' : (defs[i] == 0 ? '0' : '?')); if (defs[i] == 1) nn++; } }
+    if (got > 0 && c->rep != 0) { for (int64_t i = 0; i < got; i++) { APP("%c", defs[i] == 1 ? '1' : (defs[i] == 0 ? '0' : '?')); if (defs[i] == 1) nn++; } }
     else if (got > 0) { APP("-"); nn = got; }
     else APP("-");
     APP(";");
@@ -56,18 +63,23 @@ static char* read_chunk(carquet_reader_t* rd, const fcol* c, int rg, int col) {
         APP("x");
         for (int b = 0; b < l; b++) APP("%02x", p[b]);   /* instrumented byte reads: ASan sees stale pointers */
     }
+    if (c->rep == 2) {                                   /* REPEATED column: fourth field, the repetition levels */
+        APP(";");
+        if (got > 0) for (int64_t i = 0; i < got; i++) APP("%c", reps[i] == 1 ? '1' : (reps[i] == 0 ? '0' : '?'));
+        else APP("-");
+    }
     carquet_column_reader_free(cr);
-    free(vals); free(defs);
+    free(vals); free(defs); free(reps);
     return out;
 #undef APP
 }
 
 static char* expected_chunk(const echunk* e, const fcol* c) {
-    size_t cap = 64 + (size_t)e->nrows + 4; for (int j = 0; j < e->nvals; j++) cap += 2 * (size_t)e->vlen[j] + 2;
+    size_t cap = 64 + 2 * (size_t)e->nrows + 8; for (int j = 0; j < e->nvals; j++) cap += 2 * (size_t)e->vlen[j] + 2;
     char* out = (char*)malloc(cap); size_t len = 0;
     len += (size_t)sprintf(out + len, "%d;", e->nrows);
     if (e->nrows == 0) out[len++] = '-';
-    else if (c->rep == 1) for (int r = 0; r < e->nrows; r++) out[len++] = (char)('0' + e->defs[r]);
+    else if (c->rep != 0) for (int r = 0; r < e->nrows; r++) out[len++] = (char)('0' + e->defs[r]);
     else out[len++] = '-';
     out[len++] = ';';
     if (e->nvals == 0) out[len++] = '-';
@@ -75,6 +87,11 @@ static char* expected_chunk(const echunk* e, const fcol* c) {
         if (j) out[len++] = ':';
         out[len++] = 'x';
         for (int b = 0; b < e->vlen[j]; b++) len += (size_t)sprintf(out + len, "%02x", e->vals[j][b]);
+    }
+    if (c->rep == 2) {
+        out[len++] = ';';
+        if (e->nrows == 0) out[len++] = '-';
+        else for (int r = 0; r < e->nrows; r++) out[len++] = (char)('0' + e->reps[r]);
     }
     out[len] = 0;
     return out;
@@ -202,6 +219,15 @@ static void run_case(hctx* h, fcase* fc) {
                 e++;
             }
             if (e != nrg_exp) roundtrip = 0;
+            /* num_rows of the file: the rows of the first column of every row group (a REPEATED column starts a row at
+             * each repetition level 0) */
+            { long long want_rows = 0;
+              for (int g = 0; g < nrg_exp && g < 20; g++) {
+                  const echunk* e0 = &exp[g][0];
+                  if (fc->cols[0].rep == 2) { for (int r = 0; r < e0->nrows; r++) if (e0->reps[r] == 0) want_rows++; }
+                  else want_rows += e0->nrows;
+              }
+              if ((long long)carquet_reader_num_rows(rd) != want_rows) roundtrip = 0; }
             if (rdm && (carquet_reader_num_row_groups(rdm) != nrg || carquet_reader_num_rows(rdm) != carquet_reader_num_rows(rd))) modes = 0;
             if (rdb && (carquet_reader_num_row_groups(rdb) != nrg || carquet_reader_num_rows(rdb) != carquet_reader_num_rows(rd))) modes = 0;
         }
@@ -212,7 +238,7 @@ static void run_case(hctx* h, fcase* fc) {
     }
     fputc('\n', h->out);
     h->n_lines++;
-    for (int g = 0; g < 20; g++) for (int c = 0; c < MAXC; c++) { free(exp[g][c].defs); free(exp[g][c].vals); free(exp[g][c].vlen); }
+    for (int g = 0; g < 20; g++) for (int c = 0; c < MAXC; c++) { free(exp[g][c].defs); free(exp[g][c].reps); free(exp[g][c].vals); free(exp[g][c].vlen); }
     free(fb); free(fb2);
     unlink(path); unlink(path2);
 }
